@@ -252,6 +252,7 @@ func run(c *ev.Ctx) {
 	}
 	spines(c)
 	anyFamily(c)
+	repFamily(c)
 }
 
 func replay(raw stdjson.RawMessage) (bool, string) {
